@@ -38,6 +38,13 @@ ASSUMPTIONS = [
     'also skipped the invalidation watchers of the rx expression (C09 finding update-raises-aborts-dispatch)',
     'a rejected ctxExit (restoring an `update` context fails) is executed and compared with the model but not judged by the C02 oracle',
     'the universal watcher logs (parameter, new value); event.old is the business of C03',
+    'per-object state that every code path restores is not in the model world but observed and required to be exactly as at the start '
+    'after every step (`aux`): the Event parameter e_ of every target (value False, mode set-reset, also when a rejected update named it), '
+    'the `syncing` set (empty, also after a source update whose write into a linked parameter was rejected), and the value of a witness '
+    'parameter that holds the shared number generator (under Dynamic.time_dependent); the generator itself is only ever assigned to a '
+    'readonly Integer (callables bypass Number validation, the guard raises TypeError) — the driver gives the model a valid literal there',
+    'in half of the cases every target class is an empty subclass of the class declaring the parameters (class-level assignments meet an '
+    'inherited Parameter); whether the subclass itself holds the Parameter (`own`) is judged by the oracle only',
 ]
 RULE = ('histories of 0-10 mostly successful operations (construction with links of every kind; late link with Parameter / bind / rx / nested '
         'container; relink; plain override; update; update contexts; source updates; class-level assignment) followed by a rejected assignment '
@@ -140,7 +147,7 @@ def cases(rng, tier, worker, nworkers):
     for i, c in enumerate(directed()):
         if i % nworkers == worker:
             yield c
-    n = 1500 if tier == 'quick' else 40000 // nworkers
+    n = 1100 if tier == 'quick' else 40000 // nworkers
     for _ in range(n):
         yield R.gen_case(rng, PROP)
 
